@@ -542,10 +542,150 @@ func TestVerifC11Session(t *testing.T) {
 }
 
 // concurrent sessions through the real endpoint: 1-64 clients at once, every one ending at a random stage
+func c11SessConcCase(out *vh.Out, t *testing.T, cfg vlim.Cfg, seed uint64, workers int, def bool) {
+	opl := fmt.Sprintf("C11 sessconc %s seed=%d workers=%d deferred=%v", cfg.String(), seed, workers, def)
+	g, p, err := vlim.NewGroup(cfg)
+	if p != nil || err != nil {
+		return
+	}
+	defer vlim.CloseGroup(g)
+	chk := &c11Check{cfg: cfg}
+	tgt := &testutils.Target{DiscardMessages: true}
+	nodes := []config.Node{{Name: "max_header_size", Args: []string{"512b"}}}
+	if !def {
+		nodes = append(nodes, config.Node{Name: "defer_sender_reject", Args: []string{"no"}})
+	}
+	c11PortMu.Lock()
+	l, err := net.Listen("tcp", "127.0.0.1:0")
+	if err != nil {
+		c11PortMu.Unlock()
+		return
+	}
+	port := strconv.Itoa(l.Addr().(*net.TCPAddr).Port)
+	l.Close()
+	testPort = port
+	endp := testEndpoint(t, "smtp", nil, tgt, []module.Check{chk}, nodes)
+	c11PortMu.Unlock()
+	endp.limits = g
+	var wg sync.WaitGroup
+	var mailOK, mailLimit, ended [1]int64
+	var cmu sync.Mutex
+	for w := 0; w < workers; w++ {
+		wg.Add(1)
+		go func(w int) {
+			defer wg.Done()
+			r := vh.NewRng(seed*131 + uint64(w))
+			d := net.Dialer{LocalAddr: &net.TCPAddr{IP: net.IPv4(127, 0, 0, byte(1+r.Intn(3)))}, Timeout: 20 * time.Second}
+			conn, err := d.Dial("tcp", "127.0.0.1:"+port)
+			if err != nil {
+				out.Stat("sessconc:dial-error")
+				return
+			}
+			defer conn.Close()
+			cl := smtp.NewClient(conn)
+			cl.CommandTimeout = 90 * time.Second
+			cl.SubmissionTimeout = 90 * time.Second
+			if cl.Hello("client.example") != nil {
+				out.Stat("sessconc:hello-error")
+				return
+			}
+			for tx := 0; tx < 1+r.Intn(2); tx++ {
+				addr, _, _ := c11From(1+r.Intn(2), []int{0, 1, 2}[r.Intn(3)])
+				chk.mu.Lock()
+				chk.reject = r.Chance(10)
+				chk.mu.Unlock()
+				err := cl.Mail(addr, &smtp.MailOptions{})
+				cmu.Lock()
+				switch c11Reply(err) {
+				case "250":
+					mailOK[0]++
+				case "451-limit-timeout":
+					mailLimit[0]++
+				}
+				cmu.Unlock()
+				out.Stat("sessconc:mail:" + c11Reply(err))
+
+				if err != nil {
+					continue
+				}
+				stage := r.Intn(5)
+				if stage == 0 {
+					cl.Reset()
+					continue
+				}
+				if stage == 1 {
+					return // drop the connection right after MAIL
+				}
+				if cl.Rcpt("rcpt@target.example", nil) != nil {
+					cl.Reset()
+					continue
+				}
+				if stage == 2 {
+					cl.Mail("u@d1.example", &smtp.MailOptions{}) // nested MAIL
+					cl.Reset()
+					continue
+				}
+				if stage == 3 {
+					return
+				}
+				w, err := cl.Data()
+				if err != nil {
+					cl.Reset()
+					continue
+				}
+				if r.Chance(25) {
+					fmt.Fprintf(w, "From: <u@d1.example>\r\nX-Long: %s\r\n\r\nbody\r\n", strings.Repeat("x", 900))
+				} else {
+					fmt.Fprintf(w, "From: <u@d1.example>\r\nSubject: c11\r\n\r\nbody\r\n")
+				}
+				w.Close()
+			}
+			cl.Quit()
+			cmu.Lock()
+			ended[0]++
+			cmu.Unlock()
+		}(w)
+	}
+	wg.Wait()
+	dl := time.Now().Add(30 * time.Second)
+	for endp.sessionCnt.Load() != 0 && time.Now().Before(dl) {
+		time.Sleep(time.Millisecond)
+	}
+	out.StatN("sessconc:mail-ok", int(mailOK[0]))
+	out.StatN("sessconc:mail-limit-timeout", int(mailLimit[0]))
+	out.Stat(fmt.Sprintf("sessconc:workers:%d", workers))
+	chk.mu.Lock()
+	v := chk.viol
+	chk.mu.Unlock()
+	if v != "" {
+		out.Violation("C11/bound", opl, v)
+	} else if endp.sessionCnt.Load() != 0 {
+		out.Note("sessions did not end: " + opl)
+	} else if snap := vlim.Snapshot(g, c11sKeyID); !vlim.Idle(cfg, snap) {
+		out.Violation("C11/leak", opl, "every session ended but permits are still in use: "+snap)
+	}
+	endp.Close()
+}
+
 func TestVerifC11SessionConc(t *testing.T) {
 	out := vh.Open("c11_session_conc")
 	defer out.Close()
-	if vh.Replay() != nil {
+	if rp := vh.Replay(); rp != nil {
+		for _, l := range rp {
+			f := strings.Fields(l)
+			if len(f) < 6 || f[0] != "C11" || f[1] != "sessconc" {
+				continue
+			}
+			cfg, err := vlim.ParseCfg(f[2])
+			if err != nil {
+				t.Fatal(err)
+			}
+			seed, _ := strconv.ParseUint(strings.TrimPrefix(f[3], "seed="), 10, 64)
+			workers, _ := strconv.Atoi(strings.TrimPrefix(f[4], "workers="))
+			for rep := 0; rep < 3; rep++ {
+				c11SessConcCase(out, t, cfg, seed, workers, f[5] == "deferred=true")
+			}
+		}
 		return
 	}
 	n := vh.N(400) / 200
@@ -574,128 +714,7 @@ func TestVerifC11SessionConc(t *testing.T) {
 			}
 			def := r.Bool()
 			workers := []int{4, 16, 64}[(i+int(vh.Seed()))%3]
-			opl := fmt.Sprintf("C11 sessconc %s seed=%d workers=%d deferred=%v", cfg.String(), seed, workers, def)
-			g, p, err := vlim.NewGroup(cfg)
-			if p != nil || err != nil {
-				return
-			}
-			defer vlim.CloseGroup(g)
-			chk := &c11Check{cfg: cfg}
-			tgt := &testutils.Target{DiscardMessages: true}
-			nodes := []config.Node{{Name: "max_header_size", Args: []string{"512b"}}}
-			if !def {
-				nodes = append(nodes, config.Node{Name: "defer_sender_reject", Args: []string{"no"}})
-			}
-			c11PortMu.Lock()
-			l, err := net.Listen("tcp", "127.0.0.1:0")
-			if err != nil {
-				c11PortMu.Unlock()
-				return
-			}
-			port := strconv.Itoa(l.Addr().(*net.TCPAddr).Port)
-			l.Close()
-			testPort = port
-			endp := testEndpoint(t, "smtp", nil, tgt, []module.Check{chk}, nodes)
-			c11PortMu.Unlock()
-			endp.limits = g
-			var wg sync.WaitGroup
-			var mailOK, mailLimit, ended [1]int64
-			var cmu sync.Mutex
-			for w := 0; w < workers; w++ {
-				wg.Add(1)
-				go func(w int) {
-					defer wg.Done()
-					r := vh.NewRng(seed*131 + uint64(w))
-					d := net.Dialer{LocalAddr: &net.TCPAddr{IP: net.IPv4(127, 0, 0, byte(1+r.Intn(3)))}, Timeout: 20 * time.Second}
-					conn, err := d.Dial("tcp", "127.0.0.1:"+port)
-					if err != nil {
-						out.Stat("sessconc:dial-error")
-						return
-					}
-					defer conn.Close()
-					cl := smtp.NewClient(conn)
-					cl.CommandTimeout = 90 * time.Second
-					cl.SubmissionTimeout = 90 * time.Second
-					if cl.Hello("client.example") != nil {
-						out.Stat("sessconc:hello-error")
-						return
-					}
-					for tx := 0; tx < 1+r.Intn(2); tx++ {
-						addr, _, _ := c11From(1+r.Intn(2), []int{0, 1, 2}[r.Intn(3)])
-						chk.mu.Lock()
-						chk.reject = r.Chance(10)
-						chk.mu.Unlock()
-						err := cl.Mail(addr, &smtp.MailOptions{})
-						cmu.Lock()
-						switch c11Reply(err) {
-						case "250":
-							mailOK[0]++
-						case "451-limit-timeout":
-							mailLimit[0]++
-						}
-						cmu.Unlock()
-						out.Stat("sessconc:mail:" + c11Reply(err))
-
-						if err != nil {
-							continue
-						}
-						stage := r.Intn(5)
-						if stage == 0 {
-							cl.Reset()
-							continue
-						}
-						if stage == 1 {
-							return // drop the connection right after MAIL
-						}
-						if cl.Rcpt("rcpt@target.example", nil) != nil {
-							cl.Reset()
-							continue
-						}
-						if stage == 2 {
-							cl.Mail("u@d1.example", &smtp.MailOptions{}) // nested MAIL
-							cl.Reset()
-							continue
-						}
-						if stage == 3 {
-							return
-						}
-						w, err := cl.Data()
-						if err != nil {
-							cl.Reset()
-							continue
-						}
-						if r.Chance(25) {
-							fmt.Fprintf(w, "From: <u@d1.example>\r\nX-Long: %s\r\n\r\nbody\r\n", strings.Repeat("x", 900))
-						} else {
-							fmt.Fprintf(w, "From: <u@d1.example>\r\nSubject: c11\r\n\r\nbody\r\n")
-						}
-						w.Close()
-					}
-					cl.Quit()
-					cmu.Lock()
-					ended[0]++
-					cmu.Unlock()
-				}(w)
-			}
-			wg.Wait()
-			dl := time.Now().Add(30 * time.Second)
-			for endp.sessionCnt.Load() != 0 && time.Now().Before(dl) {
-				time.Sleep(time.Millisecond)
-			}
-			out.StatN("sessconc:mail-ok", int(mailOK[0]))
-			out.StatN("sessconc:mail-limit-timeout", int(mailLimit[0]))
-			out.Stat(fmt.Sprintf("sessconc:workers:%d", workers))
-			chk.mu.Lock()
-			v := chk.viol
-			chk.mu.Unlock()
-			if v != "" {
-				out.Violation("C11/bound", opl, v)
-			} else if endp.sessionCnt.Load() != 0 {
-				out.Note("sessions did not end: " + opl)
-			} else if snap := vlim.Snapshot(g, c11sKeyID); !vlim.Idle(cfg, snap) {
-				out.Violation("C11/leak", opl, "every session ended but permits are still in use: "+snap)
-			}
-			endp.Close()
+			c11SessConcCase(out, t, cfg, seed, workers, def)
 		}(i)
 	}
 	wgCases.Wait()
